@@ -563,7 +563,21 @@ pub fn translate(repo: &Path) -> Output {
         r.push_str(&format!("        St::{}_{}(_) => (\"{}\", \"{}\"),\n", ty, st, ty, st));
     }
     r.push_str("    }\n}\n\n");
-    for (table, rows) in &cx.kw {
+    // for the generated Rust wrapper only: an enum whose keyword table was not recognised in the method bodies still
+    // has its variants (taken from the enum declaration), so that the harness can go on calling the real builder
+    let mut rust_kw: std::collections::BTreeMap<String, Vec<(String, String)>> = cx.kw.iter().map(|(k, v)| (k.clone(), v.clone())).collect();
+    let types_src = std::fs::read_to_string(repo.join("imap-proto/src/types.rs")).unwrap_or_default();
+    let types_file = syn::parse_file(&types_src).ok();
+    for item in file.items.iter().chain(types_file.iter().flat_map(|f| f.items.iter())) {
+        if let Item::Enum(e) = item {
+            let name = e.ident.to_string();
+            let used = trans.iter().any(|t| t.params.iter().any(|p| p.1 == name));
+            if used && !rust_kw.contains_key(&name) && e.variants.iter().all(|v| matches!(v.fields, Fields::Unit)) {
+                rust_kw.insert(name.clone(), e.variants.iter().map(|v| (format!("{}::{}", name, v.ident), String::new())).collect());
+            }
+        }
+    }
+    for (table, rows) in &rust_kw {
         r.push_str(&format!("pub fn kw_{}(name: &str) -> Option<{}> {{\n    match name {{\n", table, table));
         for (k, _) in rows {
             r.push_str(&format!("        \"{}\" => Some({}),\n", k, k));
@@ -601,7 +615,7 @@ pub fn translate(repo: &Path) -> Output {
                     pats.push(format!("Arg::Str(a{})", k));
                     args.push(format!("a{}.as_str()", k));
                 }
-                other if cx.kw.contains_key(other) => {
+                other if rust_kw.contains_key(other) => {
                     pats.push(format!("Arg::Kw(a{})", k));
                     pre.push_str(&format!("let v{} = match kw_{}(a{}) {{ Some(v) => v, None => return Err(st) }}; ", k, other, k));
                     args.push(format!("v{}", k));
@@ -659,7 +673,7 @@ pub fn translate(repo: &Path) -> Output {
         r.push_str(&format!("    (\"{}\", \"{}\"),\n", f.ty, f.state));
     }
     r.push_str("];\n/// keyword tables: (enum, [variant])\npub const KW: &[(&str, &[&str])] = &[\n");
-    for (t, rows) in &cx.kw {
+    for (t, rows) in &rust_kw {
         r.push_str(&format!("    (\"{}\", &[{}]),\n", t, rows.iter().map(|(k, _)| format!("\"{}\"", k)).collect::<Vec<_>>().join(", ")));
     }
     r.push_str("];\n");
